@@ -15,7 +15,7 @@ LEVEL = "fault_enumeration"
 TECHNIQUE = "fault enumeration over Hypothesis-seeded generated valid programs: every class of definite error injected at every always-assembled statement position (main file and included files) x every entry point (string API, assemble, assemble_as_patch, in-process CLI, sampled real CLI subprocess); un-faulted hosts must succeed everywhere with output equal to the in-memory result"
 RULE = (
     "hosts: generated valid programs (C03 profile, some split into .include files).  Faults: invalid character, unterminated string, truncated operand `lda #`, unbalanced `}`, unknown keyword, undefined symbol in a sized operand / "
-    "data directive / = definition, undefined macro, too few macro arguments, undefined addressing mode `nop #0`, undefined width `rep.w #1` / `lda.l #1`, out-of-range branch, unmapped `*=`, missing .include / .incbin / .table / "
+    "data directive / = definition, undefined macro, too few macro arguments, undefined addressing mode `nop #0`, undefined width `rep.w #1` / `lda.l #1`, out-of-range branch, unmapped `*=`, `*=` / `@=` to an address of 2^24 or more or to a negative one, missing .include / .incbin / .table / "
     ".include_ips file, unterminated /* comment — inserted at every statement boundary that is certainly assembled (top level, blocks, named scopes, included files, literal-taken .if branches, literal-bounded loop bodies, bodies of applied macros).  Oracle: "
     "faulted => string API returns an error or raises; assemble / assemble_as_patch return non-zero or raise; CLI exit status != 0 and no success announcement.  Un-faulted => None / 0 / exit 0 and the output file equals the in-memory "
     "result.  Non-trivial = fault position > 0 and entry point other than the string API; distinct = distinct (host, fault, position, entry) tuples, counted."
@@ -45,6 +45,10 @@ FAULTS = {
     "undefined-width-lda": ["lda.l #1"],
     "branch-out-of-range": ["lb_flt_t:", ".ascii '" + "x" * 200 + "'", "bra lb_flt_t"],
     "unmapped-position": None,  # rom dependent
+    "position-beyond-24-bits": None,  # rom dependent: an address whose low 24 bits would be a mapped ROM address
+    "position-beyond-24-bits-expression": None,
+    "relocation-beyond-24-bits": None,
+    "negative-position": ["*=0 - 0x8000", ".db 1"],
     "missing-include": [".include 'no_such_file.s'"],
     "missing-incbin": [".incbin 'no_such_file.bin'"],
     "missing-table": [".table 'no_such_file.tbl'"],
@@ -88,6 +92,13 @@ def fault_lines(cls, rom, ir=None):
         return [f"{free[0]}(1, 2, 3)"] if free else None
     if cls == "unmapped-position":
         return ["*=0x700000" if rom == "low" else "*=0x001234"]
+    base = 0x008000 if rom == "low" else 0xC08000
+    if cls == "position-beyond-24-bits":
+        return [f"*=0x{0x1000000 + base:x}", ".db 1"]
+    if cls == "position-beyond-24-bits-expression":
+        return [f"*=0x{base:06x} + 0x3000000", ".db 1"]
+    if cls == "relocation-beyond-24-bits":
+        return [f"@=0x{0x2000000 + base + 0x800000 * (rom == 'low'):x}", ".db 1"]
     return FAULTS[cls]
 
 
